@@ -32,7 +32,10 @@ def cells(tier):
 
 
 def strategy(cell):
-    return S.scenes(cell["A"], cell["B"], families=["deep", "deep", "aligned"], margin=True)
+    # overlapping scenes plus exactly touching ones (gap factor 0), where MPR
+    # reports an intersection of depth ~0 and the direction clause matters
+    return S.scenes(cell["A"], cell["B"], families=["deep", "deep", "aligned", "gap"], margin=True,
+                    gaps=[0.0])
 
 
 def check_case(case, cell):
@@ -43,7 +46,7 @@ def check_case(case, cell):
     tag = pair_tag(case)
     labels = list(case.get("labels", ()))
     Aref, Bref = tr["A"], tr["B"]
-    if tr["hi"] > 0.0:
+    if tr["hi"] > 1e-12 * L:
         return [], {"labels": labels + ["separated"], "nontrivial": False}
     A = build(case["A"])
     B = build(case["B"])
